@@ -264,6 +264,12 @@ func propJanitor(c *Case) {
 				for j := 0; j < nr; j++ {
 					r := rest{k: baseKeys[c.Pick("key", len(baseKeys))], ttl: ttlMenu[c.Pick("ttl", len(ttlMenu))]}
 					r.v = d.token(r.k)
+
+					// which entry wins when a restored key already exists is not specified: it does not exist
+					if _, ok := d.ref.m[string(r.k)]; ok {
+						d.del(r.k)
+					}
+
 					_ = src.Write(ttlCtx(r.ttl), r.k, r.v)
 					rs = append(rs, r)
 				}
